@@ -3,6 +3,7 @@ Helper function to convert L{docutils} nodes to Stan tree.
 """
 from __future__ import annotations
 
+import os
 import re
 import optparse
 from typing import Any, Callable, ClassVar, Iterable, List, Optional, Union, TYPE_CHECKING
@@ -236,6 +237,15 @@ class HTMLTranslator(html4css1.HTMLTranslator):
         # the links leading back to them are written without it and must agree.
         node['backrefs'] = [ref if ref.startswith('rst-') else f'rst-{ref}' for ref in node['backrefs']]
         super().footnote_backrefs(node)
+
+    def visit_image(self, node: nodes.Node) -> None:
+        # docutils writes the alternative text (or the URI) of an image it embeds 
+        # with an <object> element as the content of that element, without escaping it.
+        uri = node['uri']
+        if os.path.splitext(uri)[1].lower() in self.object_image_types:
+            node = node.copy()
+            node['alt'] = self.encode(node.get('alt', uri))
+        super().visit_image(node)
 
     def visit_doctest_block(self, node: nodes.Node) -> None:
         pysrc = node[0].astext()
